@@ -15,7 +15,7 @@ import sympy
 
 from harness.lib import coqterm as ct
 from harness.lib import sym2coq as sc
-from harness.lib.core import VERIF, source_sha
+from harness.lib.core import JOBS, VERIF, source_sha
 
 LEVEL = 'proof'
 IMPORTS = 'Base.PyData Base.Expr Base.Interp Base.Stmts C05.Model C05.Check'
@@ -42,6 +42,7 @@ TAGS = {
 CORR = (1, 2, 3, 4, 5, 6, 7, 8)
 # oracle tag -> (correspondence tags that must be absent for the model to explain the failure,
 #                guard tag that must be present, finding id)
+# C05-SELF-FLOW is fixed in /repo (34eef54): open_finding() is None for it, so tags 14 / 15 are a VIOLATION again.
 ORACLE = {
     11: ((1, 3), None, None), 12: ((3, 5), None, None), 13: ((3, 4, 5), None, None),
     14: ((1, 3, 4), 201, 'C05-SELF-FLOW'), 15: ((1, 3, 5), 201, 'C05-SELF-FLOW'),
@@ -55,6 +56,7 @@ VALUES = [F(1), F(2), F(3), F(4), F(5), F(1, 2), F(3, 2), F(7), F(1, 4), F(5, 2)
 AMOUNT_VALUES = [F(11), F(13), F(17), F(19), F(23), F(29), F(31), F(37), F(41), F(43), F(47), F(53), F(59), F(61),
                  F(67), F(71)]
 OUT = '@OUT'
+SHARD = 30
 STATEMENTS_MODULE = os.environ.get('C05_STATEMENTS_MODULE', 'pharmpy.model.statements')
 
 
@@ -110,7 +112,7 @@ EDIT_KINDS = ['add_compartment', 'remove_compartment', 'add_flow', 'add_flow', '
 def gen_initial(rng, names, style):
     n = len(names)
     ops = []
-    pdose = rng.choice([0.0, 0.3, 0.5, 0.5, 0.8])
+    pdose = rng.choice([0.0, 0.4, 0.6, 0.8, 0.8, 1.0, 1.0])
     for nm in names:
         ops.append(['add_compartment', rcomp(rng, nm, pdose)])
     dens = rng.choice([0.15, 0.3, 0.3, 0.5, 0.8])
@@ -121,7 +123,7 @@ def gen_initial(rng, names, style):
             ops.append(['add_flow', a, b, rrate(rng, a)])
     pout = rng.choice([0.0, 0.3, 0.3, 0.6, 1.0])
     outs = [a for a in names if rng.random() < pout]
-    if not outs and rng.random() < 0.7:
+    if not outs and rng.random() < 0.9:
         outs = [rng.choice(names)]
     for a in outs:
         ops.insert(rng.randrange(n, len(ops) + 1), ['add_flow', a, OUT, rrate(rng, a)])
@@ -202,6 +204,8 @@ def gen_spec(rng):
     edits = gen_edits(rng, live, rng.choice([0, 0, 1, 2, 3, 4, 6, 8, 10]), style)
     ops = initial + edits
     spec = {'ops': ops, 'other': None, 'subs': None, 'rebuild': rng.random() < 0.6}
+    if rng.random() < 0.15:
+        spec['t'] = 'TIME'
     k = rng.random()
     if k < 0.3:      # the same content entered in another order
         comps_first = [o for o in ops if o[0] == 'add_compartment']
@@ -226,6 +230,29 @@ def gen_spec(rng):
     return spec
 
 
+def gen_exhaustive():
+    """Every directed graph on the three compartments B, CENTRAL, A (entered in that order, so that the
+    name order differs from the entry order) x 6 sets of output flows x 6 sets of dosed compartments."""
+    names = ['B', 'CENTRAL', 'A']
+    pairs = [(a, b) for a in range(3) for b in range(3) if a != b]
+    outsets = [(), (0,), (1,), (2,), (0, 2), (0, 1, 2)]
+    dosesets = [(), (0,), (1,), (2,), (0, 1), (1, 2)]
+    for mask in range(64):
+        for outs in outsets:
+            for ds in dosesets:
+                ops = []
+                for i, nm in enumerate(names):
+                    doses = [{'kind': 'bolus', 'amount': 'AMT', 'admid': i + 1}] if i in ds else []
+                    ops.append(['add_compartment', {'name': nm, 'doses': doses, 'input': 'R0' if i == 2 else '0',
+                                                    'lag': '0', 'bio': '1'}])
+                for k, (a, b) in enumerate(pairs):
+                    if mask >> k & 1:
+                        ops.append(['add_flow', names[a], names[b], f'K{a}{b}'])
+                for a in outs:
+                    ops.append(['add_flow', names[a], OUT, f'KO{a}'])
+                yield {'ops': ops, 'other': None, 'subs': None, 'rebuild': (mask + len(outs)) % 4 == 0}
+
+
 # ------------------------------------------------------------------ implementation side
 def mk_dose(d):
     m = impl()
@@ -234,10 +261,20 @@ def mk_dose(d):
     return m.Infusion.create(d['amount'], admid=d['admid'], rate=d.get('rate'), duration=d.get('duration'))
 
 
+CURRENT_T = ['t']       # independent variable of the system being built (spec['t'], default t)
+
+
+def rate_expr(s):
+    from pharmpy.basic import Expr
+    return Expr(s.replace('(t)', f'({CURRENT_T[0]})'))
+
+
 def mk_comp(c):
+    from pharmpy.basic import Expr
     m = impl()
-    return m.Compartment.create(c['name'], doses=tuple(mk_dose(d) for d in c['doses']), input=c['input'],
-                                lag_time=c['lag'], bioavailability=c['bio'])
+    amount = None if CURRENT_T[0] == 't' else Expr.function('A_' + c['name'], CURRENT_T[0])
+    return m.Compartment.create(c['name'], amount=amount, doses=tuple(mk_dose(d) for d in c['doses']),
+                                input=c['input'], lag_time=c['lag'], bioavailability=c['bio'])
 
 
 def dose_arg(a):
@@ -259,11 +296,12 @@ def err_kind(e):
     raise e
 
 
-def run_ops(ops):
+def run_ops(ops, t=None):
     """Run a history on the real builder.  Names are resolved with builder.find_compartment and the
     result (possibly None) is handed to the builder method as is."""
     from pharmpy.basic import Expr
     m = impl()
+    CURRENT_T[0] = t or 't'
     cb = m.CompartmentalSystemBuilder()
     errs = []
     for o in ops:
@@ -275,7 +313,7 @@ def run_ops(ops):
             elif k == 'remove_compartment':
                 cb.remove_compartment(f(o[1]))
             elif k == 'add_flow':
-                cb.add_flow(f(o[1]), m.output if o[2] == OUT else f(o[2]), Expr(o[3]))
+                cb.add_flow(f(o[1]), m.output if o[2] == OUT else f(o[2]), rate_expr(o[3]))
             elif k == 'remove_flow':
                 cb.remove_flow(f(o[1]), m.output if o[2] == OUT else f(o[2]))
             elif k == 'move_dose':
@@ -295,12 +333,14 @@ def run_ops(ops):
             elif k == 'freeze':
                 cb = m.CompartmentalSystemBuilder(m.CompartmentalSystem(cb))
             elif k == 'add_flow_obj':
-                cb.add_flow(mk_comp(o[1]), m.output if o[2] == OUT else mk_comp(o[2]), Expr(o[3]))
+                cb.add_flow(mk_comp(o[1]), m.output if o[2] == OUT else mk_comp(o[2]), rate_expr(o[3]))
             else:
                 raise KeyError(k)
             errs.append(None)
         except (ValueError, AttributeError, Exception) as e:
             errs.append(err_kind(e))
+    if t is not None:
+        return m.CompartmentalSystem(cb, t=Expr.symbol(t)), errs
     return m.CompartmentalSystem(cb), errs
 
 
@@ -389,7 +429,7 @@ class Exporter:
         if k == 'remove_compartment':
             return f"(ORemoveCompartment {self.name(o[1])})"
         if k == 'add_flow':
-            return f"(OAddFlow {self.name(o[1])} {self.target(o[2])} {self.expr(o[3])})"
+            return f"(OAddFlow {self.name(o[1])} {self.target(o[2])} {self.expr(rate_expr(o[3]))})"
         if k == 'remove_flow':
             return f"(ORemoveFlow {self.name(o[1])} {self.target(o[2])})"
         if k == 'move_dose':
@@ -410,7 +450,7 @@ class Exporter:
             return "OFreeze"
         if k == 'add_flow_obj':
             v = "Out" if o[2] == OUT else f"(Cmt {self.comp(mk_comp(o[2]))})"
-            return f"(OAddFlowObj {self.comp(mk_comp(o[1]))} {v} {self.expr(o[3])})"
+            return f"(OAddFlowObj {self.comp(mk_comp(o[1]))} {v} {self.expr(rate_expr(o[3]))})"
         raise KeyError(k)
 
     def err(self, e):
@@ -454,7 +494,7 @@ def observe(spec, prng, perturb=None):
     from pharmpy.basic import Expr
     m = impl()
     ex = Exporter()
-    cs, errs = run_ops(spec['ops'])
+    cs, errs = run_ops(spec['ops'], spec.get('t'))
     g = cs._g
     info = {'n': len(cs), 'nops': len(spec['ops']), 'errs': [e for e in errs if e], 'nedges': g.number_of_edges()}
     ops_t = ct.lst([ex.op(o) for o in spec['ops']])
@@ -470,7 +510,17 @@ def observe(spec, prng, perturb=None):
     except ValueError:
         dosing = None
     info['dosing'] = dosing is not None
+    info['ndosing'] = len(cs.dosing_compartments) if dosing is not None else 0
+    npred = len(list(g.predecessors(m.output)))
+    info['nout'] = npred
+    info['special_central'] = bool(central is not None and npred and list(g.predecessors(m.output))[-1].name != cs.central_compartment.name)
     order = cs._order_compartments()
+    if dosing is not None and order:
+        import networkx as nx
+        reach = set(nx.descendants(g, order[0])) | {order[0]}
+        info['unreached'] = len([c for c in order if c not in reach])
+    else:
+        info['unreached'] = -1
     order_t = ct.lst([ex.comp(c) for c in order])
     names_t = ct.lst([ex.name(s) for s in cs.compartment_names])
     amounts = list(cs.amounts)
@@ -490,7 +540,7 @@ def observe(spec, prng, perturb=None):
     eqs_t = []
     for e, rhs in zip(eqs, eqs_rhs):
         lhs = e.lhs._sympy_()
-        if not isinstance(lhs, sympy.Derivative) or lhs.args[1] != (sympy.Symbol('t'), 1):
+        if not isinstance(lhs, sympy.Derivative) or lhs.args[1] != (cs.t._sympy_(), 1):
             raise Skip('eq lhs is not a first derivative in t')
         eqs_t.append(ct.pair(ex.expr(lhs.args[0]), ex.expr(rhs)))
     eqs_t = ct.lst(eqs_t)
@@ -502,7 +552,7 @@ def observe(spec, prng, perturb=None):
     info['rt_eq'] = rt_eq
     other_t = "None"
     if spec.get('other'):
-        cs2, _ = run_ops(spec['other'])
+        cs2, _ = run_ops(spec['other'], spec.get('t'))
         r = eqres(lambda: cs == cs2)
         same = cs.to_dict() == cs2.to_dict()
         other_t = f"(Some ({ct.lst([ex.op(o) for o in spec['other']])}, {r}, {ct.boolean(same)}))"
@@ -515,7 +565,7 @@ def observe(spec, prng, perturb=None):
         subs_t = f"(Some ({mp}, {ex.graph(cs3._g)}))"
         info['subs'] = True
     reb_t = "None"
-    if spec.get('rebuild') and n:
+    if spec.get('rebuild') and n and not spec.get('t'):   # to_compartmental_system hard-codes the idv t
         nm = {c.amount: c.name for c in order}
         try:
             cs4 = m.to_compartmental_system(nm, cs.eqs)
@@ -582,24 +632,41 @@ def classify(ctx, spec, tags, info):
     return status
 
 
+def _observe_one(arg):
+    spec, seed = arg
+    try:
+        term, info = observe(spec, random.Random(seed))
+        return ('ok', term, info)
+    except (Skip, sc.Unconvertible) as e:
+        return ('skip', str(e), None)
+
+
 def run_specs(ctx, specs, label, quiet=False):
     terms, kept, infos = [], [], []
     skipped = {}
-    prng = random.Random(f'{ctx.seed}-{label}-pts')
-    for spec in specs:
-        try:
-            term, info = observe(spec, prng)
-        except (Skip, sc.Unconvertible) as e:
-            skipped[str(e)] = skipped.get(str(e), 0) + 1
+    args = [(spec, f'{ctx.seed}-{label}-pts-{i}') for i, spec in enumerate(specs)]
+    if len(specs) > 16 and JOBS > 1:
+        import multiprocessing as mp
+        impl()                                    # import before forking
+        with mp.get_context('fork').Pool(min(JOBS, 12)) as pool:
+            results = pool.map(_observe_one, args, chunksize=8)
+    else:
+        results = [_observe_one(a) for a in args]
+    for spec, (st, a, b) in zip(specs, results):
+        if st == 'skip':
+            skipped[a] = skipped.get(a, 0) + 1
             continue
-        terms.append(term)
+        terms.append(a)
         kept.append(spec)
-        infos.append(info)
+        infos.append(b)
     if not quiet:
         sk = ctx.coverage.setdefault('skipped', {})
         for k, v in skipped.items():
             sk[k] = sk.get(k, 0) + v
-    verdicts = ctx.run_cases(label, IMPORTS, 'case', terms, 'verdict', shard=40) if terms else []
+        ctx.log(f'{label}: {len(terms)} systems observed on the implementation, {sum(map(len, terms)) // 1024} KiB of terms')
+    verdicts = ctx.run_cases(label, IMPORTS, 'case', terms, 'verdict', shard=SHARD) if terms else []
+    if not quiet:
+        ctx.log(f'{label}: verdicts computed in Coq')
     return kept, verdicts, infos
 
 
@@ -618,6 +685,7 @@ def finding_probes(ctx):
 
 def run(ctx):
     ctx.build_gate(['C05'])
+    ctx.log('build gate done')
     ctx.trusted += [
         'harness/lib/sym2coq.py + coqterm.py and the Exporter of harness/props/c05.py (real Compartment / graph / dict '
         'objects to Gallina terms; expressions interned so that Expr == coincides with term equality)',
@@ -637,11 +705,16 @@ def run(ctx):
     ]
     ctx.coverage['source_sha'] = source_sha('src/pharmpy/model/statements.py')
     finding_probes(ctx)
+    ctx.log('finding probes done')
     reg = sorted((VERIF / 'regress' / 'C05').glob('*.json'))
     specs = [json.loads(p.read_text()) for p in reg]
     specs = [s.get('spec', s) for s in specs]
-    n = 400 if ctx.tier == 'quick' else 5000
+    n = 400 if ctx.tier == 'quick' else 2200
     specs += [gen_spec(ctx.rng) for _ in range(n)]
+    if ctx.tier != 'quick':
+        ex = list(gen_exhaustive())
+        specs += ex
+        ctx.coverage['exhaustive_three_compartment_graphs'] = len(ex)
     stats = {'ok': 0, 'known': 0, 'violation': 0, 'broken': 0}
     kept, verdicts, infos = run_specs(ctx, specs, 'gen')
     for spec, tags, info in zip(kept, verdicts, infos):
@@ -651,7 +724,8 @@ def run(ctx):
     ctx.coverage['distinct_nontrivial'] = len(distinct)
     ctx.coverage['systems'] = len(kept)
     ctx.coverage['rule'] = ('random builder histories from VERIF_SEED: initial graph on 1-6 named compartments with random flows, '
-                            'output flows, doses, inputs, lag, bioavailability + 0-10 edits; non-trivial = at least 2 '
+                            'output flows, doses, inputs, lag, bioavailability + 0-10 edits (thorough: + every directed graph on 3 compartments '
+                            'x 6 output sets x 6 dose sets); non-trivial = at least 2 '
                             'compartments and one flow in the final system; distinct by operation list')
     ctx.coverage['case_status'] = stats
     ctx.coverage['inconclusive_subchecks'] = sum(1 for v in verdicts for t in v if t >= 1000)
@@ -659,6 +733,10 @@ def run(ctx):
     ctx.coverage['input_distribution'] = {
         'compartments_hist': hist('n'), 'ops_hist': hist('nops'),
         'with_dosing_compartments': sum(1 for i in infos if i['dosing']),
+        'dosing_compartments_hist': hist('ndosing'), 'predecessors_of_output_hist': hist('nout'),
+        'central_found_by_name': sum(1 for i in infos if i['special_central']),
+        'compartments_not_reachable_from_first_dosing_hist': hist('unreached'),
+        'non_default_t': sum(1 for s in kept if s.get('t')),
         'op_errors': {k: sum(i['errs'].count(k) for i in infos) for k in ('ValueError', 'NetworkXError', 'AttributeError')},
         'self_loop_systems': sum(1 for v in verdicts if 201 in v),
         'no_dosing_systems': sum(1 for v in verdicts if 202 in v),
